@@ -68,6 +68,7 @@ type recw struct {
 	body    []byte
 	infos   []recInfo
 	flushes int
+	rc      int // SetWriteDeadline calls that reached this writer
 	last    int // argument of the last WriteHeader call (what an outer WithCodeResponseWriter records); 200 if none
 	sgid    int64
 	sret    *atomic.Bool
@@ -128,6 +129,16 @@ func (w *recw) Write(p []byte) (int, error) {
 	w.writeHeader(200)
 	w.body = append(w.body, p...)
 	return len(p), nil
+}
+
+// SetWriteDeadline is what http.NewResponseController(w).SetWriteDeadline reaches when every
+// wrapper on the way has an Unwrap method (or the method itself).
+func (w *recw) SetWriteDeadline(time.Time) error {
+	w.mu.Lock()
+	defer w.mu.Unlock()
+	w.note()
+	w.rc++
+	return nil
 }
 
 // sawTimeoutReply: the timeout branch has written its reply (the status is its own
@@ -245,6 +256,7 @@ type WOut struct {
 	Body    []int  `json:"body"`
 	Infos   []Info `json:"infos"`
 	Flushes int    `json:"flushes"`
+	RC      int    `json:"rc"`      // ResponseController calls (SetWriteDeadline) that reached the real writer
 	Code    int    `json:"code"`    // argument of the last WriteHeader call, 200 if none (the outer middlewares' record)
 	Late    int    `json:"late"`    // real-writer calls after ServeHTTP returned
 	Foreign int    `json:"foreign"` // real-writer calls from another goroutine than ServeHTTP's
@@ -268,6 +280,7 @@ func (w *recw) out() WOut {
 	}
 	o.Flushes = w.flushes
 	o.Code = w.last
+	o.RC = w.rc
 	o.Late, o.Foreign = w.late, w.foreign
 	return o
 }
@@ -322,6 +335,8 @@ func doAction(w http.ResponseWriter, r *http.Request, a []any) (ack hack, stop b
 		if f, ok := w.(http.Flusher); ok {
 			f.Flush()
 		}
+	case "rcflush":
+		_ = http.NewResponseController(w).Flush()
 	case "w", "ws", "printf":
 		// the three ways a handler usually writes: w.Write, io.WriteString (probes the writer
 		// for io.StringWriter), fmt.Fprintf
@@ -355,6 +370,13 @@ func doAction(w http.ResponseWriter, r *http.Request, a []any) (ack hack, stop b
 		panic(pv(num(a[1])))
 	}
 	return hack{obs: []any{"none"}}, false
+}
+
+// "rcdl" is no step of its own: http.NewResponseController(w).SetWriteDeadline(...) is made
+// right before the next scripted action (after that action's gate).  It reaches the real
+// writer only through Unwrap methods; a timeoutWriter has none.
+func doRCDeadline(w http.ResponseWriter) {
+	_ = http.NewResponseController(w).SetWriteDeadline(time.Now().Add(time.Hour))
 }
 
 func toBytes(v any) []byte {
@@ -551,19 +573,31 @@ func runSeqCore(c SeqCase, build func(work http.HandlerFunc) (http.Handler, func
 				panic(p)
 			}
 		}()
+		rcdl := false
+		gate := func() {
+			<-q.gate
+			if rcdl {
+				rcdl = false
+				doRCDeadline(w)
+			}
+		}
 		for _, a := range q.in.Script {
-			if a[0].(string) == "copy" {
-				doCopy(w, a, func() { <-q.gate }, func(k hack) { q.acks <- k })
+			switch a[0].(string) {
+			case "rcdl":
+				rcdl = true
+				continue
+			case "copy":
+				doCopy(w, a, gate, func(k hack) { q.acks <- k })
 				continue
 			}
-			<-q.gate
+			gate()
 			ack, stop := doAction(w, r, a)
 			q.acks <- ack
 			if stop {
 				break
 			}
 		}
-		<-q.gate
+		gate()
 		q.acks <- hack{obs: []any{"none"}, ended: true}
 	}
 	h, target, err := build(work)
@@ -623,7 +657,7 @@ func runSeqCore(c SeqCase, build func(work http.HandlerFunc) (http.Handler, func
 		req, _ := http.NewRequestWithContext(q.parent, http.MethodGet, "http://localhost"+target(i), http.NoBody)
 		req.Header.Set(seqHeader, strconv.Itoa(i))
 		for _, kv := range q.in.Hdrs {
-			req.Header.Set(kv[0], kv[1])
+			req.Header.Add(kv[0], kv[1]) // several values under one name stay several values
 		}
 		sStarted := make(chan struct{})
 		w := asWriter(q.rw, q.in.Fl)
